@@ -249,6 +249,12 @@ def Run.instr (r : Run) (mode : Mode) (g : String) (ts : List Target) : Run :=
       -- the gate of the circuit is SPP(±Q); the frame is pre-composed with its inverse
       let Qs : PS := if inv then ⟨(Q.ph + 2) % 4, Q.ps⟩ else Q
       { r with st := r.st.pre (conjPhase Qs (g == "SPP")) }) r
+  else if g == "HERALDED_ERASE" || g == "HERALDED_PAULI_CHANNEL_1" then
+    -- noiseless semantics: the herald bit of every target reads 0
+    ts.foldl (fun r _ => { r with record := r.record ++ [false], kinds := r.kinds ++ [.forced],
+                                  ok := r.ok && (match mode with
+                                    | .follow rs => if r.record.length < rs.length then rs.getD r.record.length false == false else true
+                                    | .bias _ => true) }) r
   else if g == "MPAD" then
     ts.foldl (fun r t => { r with record := r.record ++ [t.value == 1], kinds := r.kinds ++ [.forced],
                                   ok := r.ok && (match mode with
